@@ -27,22 +27,6 @@ theorem callClosure_noparams (ρ : ExtOracle N) (n : Nat) (vt rt : Option Ty) (g
 
 /-! ## The generated accessor memoises (`BuildModuleDefinitions::apply`) -/
 
-/-- the closure created by `function M.<name>(): typeof(__modImpl()) … end` in environment `locals` -/
-def accClosure (M name : String) (locals : List (String × Nat)) : Closure N := ⟨accFn M name, locals, []⟩
-
-/-- the closure created by `local function __modImpl() <body> end` -/
-def implClosure (body : Block) (locals : List (String × Nat)) : Closure N := ⟨implFn body, locals, []⟩
-
-/-- What a later state must still have for the accessor of `name` to answer from its box `tb`:
-the modules table, its `cache` table, the box stored under `name`, the boxed value. -/
-structure Boxed (locals : List (String × Nat)) (M name : String) (cM tM tC tb : Nat) (w : Val N) (σ : State N) : Prop where
-  hM : lookupAssoc M locals = some cM
-  cellM : σ.getCell cM = .tbl tM
-  cache : σ.rawGet tM (strVal "cache") = .tbl tC
-  box : σ.rawGet tC (strVal name) = .tbl tb
-  content : σ.rawGet tb (strVal "c") = w
-  plain : (σ.getTable tb).mt = none
-
 /-- **Later calls**: once the box exists, a call of the accessor (any arguments, any level ≥ 2)
 returns exactly the boxed value `w` — `nil` and `false` included — allocates one cell for `v`
 and does nothing else: no closure is called, the trace is unchanged. -/
